@@ -80,8 +80,12 @@ def obs_C02(g, out):
             pair(out, "ClosedForm_g33", loc, up["g33"], 1.0 / R ** 2 + (dphidy / (hy * cosb)) ** 2, relq(up["g33"]), 20)
             pair(out, "ClosedForm_g_11", loc, dn["g_11"], 1.0 / (R * Bp * cosb) ** 2, relq(dn["g_11"]), 20)
             pair(out, "ClosedForm_g_22", loc, dn["g_22"], hy ** 2 + (dphidy * R) ** 2, relq(dn["g_22"]), 20)
-            pair(out, "ClosedForm_g12", loc, up["g12"], R * np.abs(Bp) * tanb / hy, relq(up["g11"], up["g22"]), 20)
-            pair(out, "ClosedForm_g_12", loc, dn["g_12"], -hy * tanb / (R * np.abs(Bp)), relq(dn["g_11"], dn["g_22"]), 20)
+            sg = np.sign(Bp)
+            pair(out, "ClosedForm_g12", loc, up["g12"], -sg * R * np.abs(Bp) * tanb / hy, relq(up["g11"], up["g22"]), 20)
+            pair(out, "ClosedForm_g13", loc, up["g13"], sg * Bt * tanb, relq(up["g11"], up["g33"]), 20)
+            pair(out, "ClosedForm_g_12", loc, dn["g_12"], sg * hy * tanb / (R * np.abs(Bp)), relq(dn["g_11"], dn["g_22"]), 20)
+            pair(out, "ClosedForm_g23", loc, up["g23"], -sg * dphidy / (hy * cosb) ** 2, relq(up["g23"]) if np.nanmax(np.abs(up["g23"])) > 0 else 1e-12, 20)
+            pair(out, "ClosedForm_g_23", loc, dn["g_23"], sg * dphidy * R ** 2, relq(dn["g_23"]) if np.nanmax(np.abs(dn["g_23"])) > 0 else 1e-12, 20)
     # y-z coupling against the toroidal shift stored in the same grid (centre): g_23 = g_33 * d(zShift)/dy
     dy = g.var("dy")
     zlo, zhi = region_faces(g, "zShift")
@@ -112,7 +116,7 @@ def obs_C02(g, out):
     pair(out, "Displacement_g_22pol", "centre", pol22, (dRy ** 2 + dZy ** 2) / dy ** 2, relq(pol22, rel=1e-6), 0, kind="signratio")
     if not orth:
         d12 = (dRx * dRy + dZx * dZy) / (dx * dy)
-        pair(out, "Displacement_g_12", "centre", g_12, d12, relq(g_12, d12, rel=1e-6), 0, kind="signratio12", dom="awayX")
+        pair(out, "Displacement_g_12", "centre", g_12, d12, relq(g_12, d12, rel=1e-6), 0, kind="signratio12", dom="legsAwayX")
         out["g12scale"] = Q(np.sqrt(np.abs(g_11 * pol22)), relq(g_12, d12, rel=1e-6))
 
 
